@@ -18,9 +18,10 @@
   the early exit, used by the matrix), handed over by the harness as the exact value of the
   float64 the implementation computed, so that threshold and order comparisons are exact.
 
-  Outside the model's domain: an individual whose unique identifiers select *different* right
-  individuals (`ByUniqueIdentifiers` iterates a `sync.Map`, so `bs[0]` is not determined even
-  sequentially); a second `Compare` with the same options value (stale `sentA/sentB`).
+  Nondeterminism that is not scheduling: `ByUniqueIdentifiers` iterates a `sync.Map`, so for an
+  individual whose unique identifiers select *different* right individuals the choice `bs[0]` is
+  not determined even sequentially; it is a parameter `ch` here (`Admissible`).  History: the
+  options value keeps `sentA/sentB` across calls; the initial sent sets are a parameter `s0`.
 -/
 import Gedcom.Model.Types
 namespace Gedcom.Match
@@ -42,15 +43,26 @@ structure Job where
   score : Rat
 deriving Repr, DecidableEq
 
-/-- `right.ByUniqueIdentifiers(a.UniqueIdentifiers())[0]`: for each identifier of `a` the first
-    right individual carrying it; the first hit (identifiers in document order) -/
-def uniqueTarget (R : List Person) (a : Person) : Option Person :=
-  (a.uids.filterMap fun u => R.find? (fun b => b.uids.contains u)).head?
+/-- `right.ByUniqueIdentifiers(a.UniqueIdentifiers())`: for each identifier of `a` the first right
+    individual carrying it.  The implementation iterates a `sync.Map`, so the order of this list
+    — and with it the element `bs[0]` that is used — is not determined. -/
+def uniqueCands (R : List Person) (a : Person) : List Person :=
+  a.uids.filterMap fun u => R.find? (fun b => b.uids.contains u)
+
+/-- the choice `bs[0]` when the identifiers are visited in document order -/
+def uniqueTarget (R : List Person) (a : Person) : Option Person := (uniqueCands R a).head?
+
+/-- a resolution of every choice `bs[0]`: any candidate may come first, none only if there is no
+    candidate.  The theorems quantify over all admissible resolutions. -/
+def Admissible (R : List Person) (ch : Person → Option Person) : Prop :=
+  ∀ a, match ch a with
+    | none => uniqueCands R a = []
+    | some b => b ∈ uniqueCands R a
 
 /-- all distinct candidates of `a` — more than one means the implementation's choice is not
     determined (map iteration order) -/
 def uniqueCandidates (R : List Person) (a : Person) : List Nat :=
-  ((a.uids.filterMap fun u => R.find? (fun b => b.uids.contains u)).map (·.id)).eraseDups
+  ((uniqueCands R a).map (·.id)).eraseDups
 
 structure Sent where
   a : List Str
@@ -58,15 +70,15 @@ structure Sent where
 deriving Repr
 
 /-- createUniqueJobs: one certain job per left individual that shares an identifier with some
-    right individual; both pointers are recorded as sent.  No check that the right individual was
-    not already taken. -/
-def uniqueJobs (R : List Person) : List Person → Sent → List Job × Sent
+    right individual (`ch a` = the right individual chosen); both pointers are recorded as sent.
+    No check that the right individual was not already taken, nor of the sent sets. -/
+def uniqueJobs (ch : Person → Option Person) : List Person → Sent → List Job × Sent
   | [], s => ([], s)
   | a :: as, s =>
-    match uniqueTarget R a with
-    | none => uniqueJobs R as s
+    match ch a with
+    | none => uniqueJobs ch as s
     | some b =>
-      let (js, s') := uniqueJobs R as ⟨a.ptr :: s.a, b.ptr :: s.b⟩
+      let (js, s') := uniqueJobs ch as ⟨a.ptr :: s.a, b.ptr :: s.b⟩
       (⟨a.id, b.id, true, 0⟩ :: js, s')
 
 /-- createPointerJobs: same pointer on both sides, neither side sent yet, forced weighted
@@ -90,13 +102,27 @@ def matrixJobs (L R : List Person) (s : Sent) (scoreF : Nat → Nat → Rat) : L
   (L.filter fun a => !s.a.contains a.ptr).flatMap fun a =>
     (R.filter fun b => !s.b.contains b.ptr).map fun b => ⟨a.id, b.id, false, scoreF a.id b.id⟩
 
-/-- the `jobs` channel of the sequential schedule.  With an empty right side nothing is looked
-    up (and the matrix is empty anyway). -/
-def jobs (L R : List Person) (scoreT scoreF : Nat → Nat → Rat) (prefer : Rat) : List Job :=
+/-- the `jobs` channel of the sequential schedule, for a resolution `ch` of the unique-identifier
+    choices and the sent sets `s0` the options value carries when `Compare` starts (empty for a
+    fresh options value; `sentA/sentB` are never reset, so a second `Compare` with the same options
+    value starts from the sets the first one left behind).  With an empty right side nothing is
+    looked up (and the matrix is empty anyway). -/
+def jobsFrom (ch : Person → Option Person) (s0 : Sent) (L R : List Person)
+    (scoreT scoreF : Nat → Nat → Rat) (prefer : Rat) : List Job :=
   if R.isEmpty then [] else
-  let (u, s1) := uniqueJobs R L ⟨[], []⟩
+  let (u, s1) := uniqueJobs ch L s0
   let (p, s2) := pointerJobs R scoreT prefer L s1
   u ++ p ++ matrixJobs L R s2 scoreF
+
+/-- the sent sets a `Compare` leaves behind in its options value -/
+def sentAfter (ch : Person → Option Person) (s0 : Sent) (L R : List Person)
+    (scoreT : Nat → Nat → Rat) (prefer : Rat) : Sent :=
+  if R.isEmpty then s0 else
+  (pointerJobs R scoreT prefer L (uniqueJobs ch L s0).2).2
+
+/-- a fresh options value, identifiers visited in document order -/
+def jobs (L R : List Person) (scoreT scoreF : Nat → Nat → Rat) (prefer : Rat) : List Job :=
+  jobsFrom (uniqueTarget R) ⟨[], []⟩ L R scoreT scoreF prefer
 
 /-! ## calculateWinners -/
 
